@@ -124,6 +124,8 @@ def run(ctx):
         demo("fetch-wrong", "fetch", lambda e: e["ev"] == "fetch" and e["ok"] == 0 and e["desc"] == "wrong",
              lambda e: e.update(ok=1))
         demo("fetch-raw", "fetch", lambda e: e["ev"] == "fetch" and e["ok"] == 1, lambda e: e.update(raw_sha256="00"))
+        demo("fetch-digest", "fetch", lambda e: e["ev"] == "fetch" and e["ok"] == 1 and e["desc"] == "absent" and e["ref"] == "absent"
+             and e["hdr"] == "absent", lambda e: e.update(rep_digest="sha256:" + "1" * 64))
         demo("edit-digest", "edit", lambda e: e["ev"] == "op" and e["err"] == 0, lambda e: e.update(rep_size=e["rep_size"] + 1), True)
         demo("edit-frame", "edit", lambda e: e["ev"] == "op" and e["err"] == 0 and e["op"] == "ann",
              lambda e: e.update(g_subject="x", r_subject="x"), True)
